@@ -1120,13 +1120,13 @@ def execute(schedule, ctx):
             storage_key = nm.startswith('_') and nm[1:] in d['index']
             if storage_key:
                 clsattr = True  # handled like a class attribute name: only ever tried under strict
-            if nm in d['index'] or isinstance(getattr(type(x), nm, None), property) or (clsattr and not d['_strict']) or (nm in d and not storage_key):
+            if nm in d['index'] or isinstance(getattr(type(x), nm, None), property) or (clsattr and not d['_strict']) or (nm in d and not storage_key and nm not in ('engine', 'lags', 'leads')):
                 # (without strict, assigning over a method would only break the harness's own later calls)
                 outcome = 'skipped'
             else:
                 if clsattr:
                     ctx.probe('strict-vs-class-attribute-name')
-                exists = nm in d['_attributes']
+                exists = nm in d['_attributes'] or (nm in ('engine', 'lags', 'leads') and nm in d and 'names' in d)  # every model has these
                 strict = bool(d['_strict'])
                 newval = op['v']
                 if nm in ('lags', 'leads') and exists:
